@@ -8,8 +8,12 @@ import MM.Model.C19
     reset <exit 0|1> <nets|-> <patterns|->      -> ok
         nets: comma-separated <iphex>/<bits> (ip 4 or 16 bytes; written to the config as CIDR text,
         IPv4-mapped addresses in their `::ffff:a.b.c.d` form); patterns: comma-separated hex
-    add <iphex>/<bits> <metric>                  -> ok | err config-route | err other
-    remove <iphex>/<bits>                        -> ok | err config-route | err not-found
+    add <iphex>/<bits> <metric>                  -> (ok | err config-route | err other) dyn <key>,..|-
+    remove <iphex>/<bits>                        -> (ok | err config-route | err not-found) dyn <key>,..|-
+        (every answer carries the manager's own list of dynamic routes afterwards)
+    withdraw|advertise <net> <self|1|2|3> <k>    -> ok    a ROUTE_WITHDRAW / ROUTE_ADVERTISE for <net> received from peer k
+                                                          naming this agent / peer n as origin (changes the routing TABLE only)
+    peerdown <k> | stale                         -> ok    peer-disconnect clean-up / stale-route expiry
     open i:<iphex>                               -> dial <ip> | denied | dialfail (dial attempted, connection failed)
     open n:<namehex>:<resolved iphex|->          -> dial <ip> | denied | unresolved | dialfail
     state                                        -> dyn <key>=<metric>,..|- allowed <key>,..|-|none
@@ -49,6 +53,8 @@ def joinOrDash (l : List String) : String := if l.isEmpty then "-" else ",".inte
 def sortStrings (l : List String) : List String :=
   l.foldl (fun acc s => (acc.takeWhile (· < s)) ++ [s] ++ (acc.dropWhile (· < s))) []
 
+def showDynKeys (s : St) : String := joinOrDash (sortStrings (s.dyn.map (fun e => showKey e.2.1)))
+
 def showState (s : St) : String :=
   let dyn := sortStrings (s.dyn.map (fun e => s!"{showKey e.2.1}={e.2.2}"))
   let al := match s.allowed with
@@ -66,11 +72,11 @@ def step (s : St) (line : String) : St × String :=
     | _, _ => (s, "bad-op")
   | ["add", n, m] =>
     match parseNet n, m.toNat? with
-    | some net, some metric => let r := add s net metric; (r.1, showOutcome r.2)
+    | some net, some metric => let r := add s net metric; (r.1, showOutcome r.2 ++ " dyn " ++ showDynKeys r.1)
     | _, _ => (s, "bad-op")
   | ["remove", n] =>
     match parseNet n with
-    | some net => let r := remove s net; (r.1, showOutcome r.2)
+    | some net => let r := remove s net; (r.1, showOutcome r.2 ++ " dyn " ++ showDynKeys r.1)
     | none => (s, "bad-op")
   | ["open", d] =>
     match parseDest d with
@@ -82,6 +88,12 @@ def step (s : St) (line : String) : St × String :=
         | .unresolved => "unresolved")
     | none => (s, "bad-op")
   | ["state"] => (s, showState s)
+  -- peer traffic, disconnect clean-up and expiry act on the routing TABLE; the manager's
+  -- local/dynamic maps and the exit handler's allow list — all that C19 depends on — are untouched
+  | ["withdraw", _, _, _] => (s, "ok")
+  | ["advertise", _, _, _] => (s, "ok")
+  | ["peerdown", _] => (s, "ok")
+  | ["stale"] => (s, "ok")
   | _ => (s, "bad-op")
 
 /-! ### spec: C19 on the implementation's own answers.
@@ -115,19 +127,16 @@ def specStep (s : SpecSt) (l : String) : SpecSt × String :=
       match parseList parseNet nets, parseList bytesOfHex pats with
       | some ns, some ps => ({ exitEnabled := ex = "1", cfgNets := ns, pats := ps, present := [] }, "ok")
       | _, _ => (s, "fail unparsable-op")
-    | ["add", n, _] =>
-      match parseNet n with
-      | some net =>
-        if out = "ok" then
-          ({ s with present := if s.present.any (·.key == net.key) then s.present else s.present ++ [net] }, "ok")
-        else (s, "ok")
-      | none => (s, "fail unparsable-op")
-    | ["remove", n] =>
-      match parseNet n with
-      | some net =>
-        if out = "ok" then ({ s with present := s.present.filter (fun p => !(p.key == net.key)) }, "ok")
-        else (s, "ok")
-      | none => (s, "fail unparsable-op")
+    | "add" :: _ | "remove" :: _ =>
+      -- whatever the API answered (success or error): the dynamic routes present are the ones the
+      -- routing manager lists afterwards
+      match (tokens out).reverse with
+      | lst :: "dyn" :: _ =>
+        match parseList parseNet lst with
+        | some ns => ({ s with present := ns }, "ok")
+        | none => (s, "fail unparsable-output")
+      | _ => (s, "fail unparsable-output")
+    | "withdraw" :: _ | "advertise" :: _ | "peerdown" :: _ | "stale" :: _ => (s, "ok")
     | ["open", d] =>
       match parseDest d with
       | some dest =>
